@@ -2,10 +2,10 @@ package main
 
 import (
 	"context"
-	"regexp"
 	"encoding/binary"
 	"errors"
 	"fmt"
+	"regexp"
 	"strings"
 	"time"
 
@@ -18,15 +18,15 @@ func init() { props["C03"] = runC03 }
 // ---- a response script
 
 type srvPkt struct {
-	kind   string // d t p f e l tc x eos u
-	cols   []srvCol
-	rows   int
-	id     uint64
-	n      int
-	evInt  bool // ProfileEvents value column is Int64 (else UInt64)
-	chain  []srvExc
-	bytes  []byte
-	spec   string
+	kind  string // d t p f e l tc x eos u
+	cols  []srvCol
+	rows  int
+	id    uint64
+	n     int
+	evInt bool // ProfileEvents value column is Int64 (else UInt64)
+	chain []srvExc
+	bytes []byte
+	spec  string
 }
 
 type respScript struct {
